@@ -205,3 +205,16 @@ PROPS["C23"] = dict(explanation="Bounded symbolic execution of the real count/mi
     bounds=["0..4 rows; column types float32, float64, int32, int64 (min/max refuse non-float32 columns outright: reached and recorded, not an error of value)", "values: floats k/16 resp. k/1024 with small numerators, integers any value of the type", "gap thresholds 1Sec, 10Sec, 1Min; epochs symbolic within 100000 s, any order"],
     outside=["avg/min/max of an empty input (avg is 0/0)", "gap without a threshold (z-score mode)", "the SQL front end (sqlparser.AggRunner) that maps columns to these aggregates", "NaN/Inf"],
     stubs=AGG_STUBS + ["gonum f64.AxpyUnitaryTo (assembly): dst[i] = alpha*x[i] + y[i] with two roundings", "time.Now in Output(): symbolic clock"], assumptions=COMMON_ASSUME)
+
+
+SQL_EXPL = "The ANTLR front end is not executed: the harness assembles the SelectRelation with the calls the parse-tree visitors make (NewStaticPredicate, StaticPredicate.AddComparison, StaticPredicateGroup.Merge per comparison; AliasedIdentifier/AddAlias per select item). Everything behind it is real and runs over the file-system model: SelectRelation.Materialize (always-false test, SourceValidator, Epoch predicate push-down into planner.Query, the post-filter bitmap, Project/Rename, RestrictLength), planner.Parse, executor.NewReader/Read. "
+PROPS["C19"] = dict(explanation=SQL_EXPL + "C19: three daily bars with symbolic int32 values; WHERE is a conjunction of one or two comparisons, each on Epoch (literal in nanoseconds, as a datetime string is converted; whole seconds from one day before the first bar to one day after the last, symbolic) or on the int32 column (literal symbolic), operator in {<, <=, >, >=, =}; the result must be exactly the bars satisfying the conjunction, in time order.",
+    runs=[dict(pkg="sqlparser", files=["c19_sql.go"], entries=["VerifC19Where"], must_reach=["entered", "materialized"], opts=dict(timeout=60))],
+    bounds=["fixed-length 1D bucket, 3 rows on consecutive days, columns Epoch, V int32, F float32", "1..2 comparisons, all 5 operators, both column kinds, symbolic literals"],
+    outside=["the ANTLR parser and tree visitors, BETWEEN (built from the same AddComparison calls with > and <), literals given as epoch seconds, float columns, variable-length buckets with Nanoseconds", "known finding region: two equalities on one column keep only the last"],
+    stubs=FS_STUBS + ["ANTLR front end bypassed (relation assembled by the harness)"], assumptions=COMMON_ASSUME)
+PROPS["C20"] = dict(explanation=SQL_EXPL + "C20: select list in {*, V, F, (V,F), (F,V)}, optional alias on the first item (fresh name, or the name of the other column), LIMIT 0..4, no WHERE: the result has the first n rows, the named columns under their output names with their types and values, and nothing else.",
+    runs=[dict(pkg="sqlparser", files=["c19_sql.go"], entries=["VerifC20Projection"], must_reach=["entered", "materialized"], opts=dict(timeout=60))],
+    bounds=["fixed-length 1D bucket, 3 rows, columns Epoch, V int32, F float32; 5 select lists x 3 alias modes x LIMIT 0..4"],
+    outside=["INSERT INTO ... SELECT (InsertIntoStatement.Materialize is not exercised)", "aggregate function calls in the select list", "known finding region: an alias equal to the name of another selected column"],
+    stubs=FS_STUBS + ["ANTLR front end bypassed"], assumptions=COMMON_ASSUME)
